@@ -199,7 +199,16 @@ def scc_charset():
     return sorted(chars)
 
 
-def gen_text(rng, name, flavour):
+def gen_text(rng, name, flavour, clean=False):
+    """clean: resample until the text carries no earlier format's marker (large sets would otherwise never be in the
+    domain)"""
+    while True:
+        t = gen_text1(rng, name, flavour)
+        if not clean or in_domain_text(name, t):
+            return t
+
+
+def gen_text1(rng, name, flavour):
     r = rng.random()
     if flavour == "scc":
         cs = scc_charset()
@@ -217,7 +226,14 @@ def gen_text(rng, name, flavour):
     return gens.rand_text(rng, adversarial=0.5)
 
 
-def gen_nodes(rng, name, flavour):
+def layouts():
+    from pycaption.geometry import (Layout, Alignment, HorizontalAlignmentEnum, VerticalAlignmentEnum, Point, Size,
+                                    UnitEnum)
+    return [Layout(alignment=Alignment(HorizontalAlignmentEnum.CENTER, VerticalAlignmentEnum.BOTTOM)),
+            Layout(origin=Point(Size(10, UnitEnum.PERCENT), Size(80, UnitEnum.PERCENT)))]
+
+
+def gen_nodes(rng, name, flavour, clean=False):
     nodes = []
     nlines = rng.randint(1, 3)
     styled = rng.random() < 0.25 and flavour != "scc"
@@ -227,10 +243,10 @@ def gen_nodes(rng, name, flavour):
         if styled and rng.random() < 0.6:
             st = rng.choice(STYLE_NODES)
             nodes.append(CaptionNode.create_style(True, dict(st)))
-            nodes.append(CaptionNode.create_text(gen_text(rng, name, flavour)))
+            nodes.append(CaptionNode.create_text(gen_text(rng, name, flavour, clean)))
             nodes.append(CaptionNode.create_style(False, dict(st)))
         else:
-            nodes.append(CaptionNode.create_text(gen_text(rng, name, flavour)))
+            nodes.append(CaptionNode.create_text(gen_text(rng, name, flavour, clean)))
     return nodes
 
 
@@ -241,6 +257,7 @@ def own_output_case(rng, fmt, big=0):
     nlangs = rng.choice([1, 1, 1, 2, 2, 3])
     langs = rng.sample(LANG_NAMES, nlangs)
     empty_at = set()
+    positioned = [False]
     if nlangs > 1 and rng.random() < 0.4:
         empty_at.add(rng.randrange(nlangs))          # an empty first or later language
     d = {}
@@ -253,11 +270,17 @@ def own_output_case(rng, fmt, big=0):
         if name == "SCC":
             t = rng.randrange(2, 40) * 10 ** 6
             for i in range(n):
-                caps.append(Caption(t, t + 3 * 10 ** 6, gen_nodes(rng, name, flavour)))
+                caps.append(Caption(t, t + 3 * 10 ** 6, gen_nodes(rng, name, flavour, bool(big))))
                 t += 10 * 10 ** 6
         else:
             for (s, e) in gens.rand_times(rng, n):
-                caps.append(Caption(s, e, gen_nodes(rng, name, flavour)))
+                nodes = gen_nodes(rng, name, flavour, bool(big))
+                lay = rng.choice(layouts()) if rng.random() < 0.2 else None      # positioned captions
+                if lay is not None:
+                    positioned[0] = True
+                    for nd in nodes:
+                        nd.layout_info = lay
+                caps.append(Caption(s, e, nodes, layout_info=lay))
         d[lang] = CaptionList(caps)
     cs = CaptionSet(d)
     texts = [n.content for l in langs for c in d[l] for n in c.nodes if n.type_ == CaptionNode.TEXT]
@@ -272,7 +295,7 @@ def own_output_case(rng, fmt, big=0):
         "literal_other": sorted({h for t in texts for h in literal_other_marker(name, t)}),
         "inner_break": any(any(ch in t for ch in "\n\r\x0b\x0c\x1c\x1d\x1e\x85\u2028\u2029") for t in texts),
         "styled": any(n.type_ == CaptionNode.STYLE for l in langs for c in d[l] for n in c.nodes),
-        "ncaps": sum(len(d[l]) for l in langs),
+        "ncaps": sum(len(d[l]) for l in langs), "positioned": positioned[0],
     }
     return cs, info
 
@@ -342,8 +365,8 @@ def judge_own(fmt, cs, info, res, docs_out=None):
         bump(dist, "D_writer_raised_" + name)
         return
     doc = out.v
-    for k in ("empty_first", "empty_later", "inner_break", "styled"):
-        bump(dist, "D_" + k, int(bool(info[k])))
+    for k in ("empty_first", "empty_later", "inner_break", "styled", "positioned"):
+        bump(dist, "D_" + k, int(bool(info.get(k))))
     bump(dist, "D_languages_%d" % info["langs"])
     bump(dist, "D_text_with_a_later_or_positional_marker", int(bool(info["literal_other"])))
     if not info["marker_free"]:
